@@ -25,8 +25,9 @@ VARIABLES c,        \* configuration
           ph,       \* overlap generator phase: "init" | "run" | "dead" | "broken" (un-repaired D3: generator raised)
           ocache,   \* overlap cache (tail of the previous block)
           hist,     \* values returned since the last rewind: sequence of blocks, <<>> stands for None
-          log       \* every operation with its result, in order (what legs R/T compare)
-vars == <<c, spos, cache, frozen, data, rpos, lcount, ph, ocache, hist, log>>
+          log,      \* every operation with its result, in order (what legs R/T compare)
+          opened    \* the reader has been opened (reads before that raise an I/O error and leave no trace in any state)
+vars == <<c, spos, cache, frozen, data, rpos, lcount, ph, ocache, hist, log, opened>>
 
 Ids(a, b) == [i \in 1..(b - a) |-> a + i]          \* ids a+1 .. b
 Min2(a, b) == IF a < b THEN a ELSE b
@@ -36,7 +37,7 @@ Err(op, e) == [op |-> op, k |-> e, ids |-> <<>>]
 
 Init == /\ c \in {x \in Cfgs : Constructible(x.b, x.h)}
         /\ spos = 0 /\ cache = <<>> /\ frozen = FALSE /\ data = <<>> /\ rpos = 0
-        /\ lcount = 0 /\ ph = "init" /\ ocache = <<>> /\ hist = <<>> /\ log = <<>>
+        /\ lcount = 0 /\ ph = "init" /\ ocache = <<>> /\ hist = <<>> /\ log = <<>> /\ opened \in BOOLEAN
 
 \* ---- layer 1: (recorded) source read of k >= 1 samples; returns [blk, spos, cache, rpos]
 SrcRead(k) ==
@@ -56,10 +57,20 @@ Apply(r, blk, newph, newoc) ==
   /\ spos' = r.spos /\ cache' = r.cache /\ rpos' = r.rpos
   /\ lcount' = lcount + Len(r.blk)
   /\ hist' = Append(hist, blk) /\ ph' = newph /\ ocache' = newoc
-  /\ log' = Append(log, Blk(blk)) /\ UNCHANGED <<c, frozen, data>>
+  /\ log' = Append(log, Blk(blk)) /\ UNCHANGED <<c, frozen, data, opened>>
 
 \* ---- layer 3: framing (util.py:517-518, 551-580)
-CanOp == Len(log) < MaxOps
+CanOp == Len(log) < MaxOps /\ opened
+\* a reader that has not been opened yet: read() raises an I/O error, any number of times, and nothing else happens;
+\* open() then makes it a reader on which nothing has been read
+\* (with max_read = 0 nothing is visible anyway: the limiter may answer None before the closed source is even asked --
+\* the statement does not choose between the two, so both are behaviours)
+ReadClosed == /\ ~opened /\ Len(log) < MaxOps
+              /\ \/ log' = Append(log, Err("read", "AudioIOError"))
+                 \/ c.lim = 0 /\ log' = Append(log, Blk(<<>>))
+              /\ UNCHANGED <<c, spos, cache, frozen, data, rpos, lcount, ph, ocache, hist, opened>>
+Open == /\ ~opened /\ Len(log) < MaxOps /\ opened' = TRUE /\ log' = Append(log, [op |-> "open", k |-> "ok", ids |-> <<>>])
+        /\ UNCHANGED <<c, spos, cache, frozen, data, rpos, lcount, ph, ocache, hist>>
 ReadFixed == /\ c.h = c.b /\ CanOp
              /\ LET r == LimRead(c.b) IN Apply(r, r.blk, ph, ocache)
 ReadOvInit == /\ c.h < c.b /\ ph = "init" /\ CanOp
@@ -75,24 +86,24 @@ ReadOvDead == /\ c.h < c.b /\ ph = "dead" /\ CanOp
 \* pinned tree before the fix: the generator falls through after yielding None and raises TypeError
 ReadOvBroken == /\ c.h < c.b /\ ph = "broken" /\ CanOp
                 /\ log' = Append(log, Err("read", "TypeError")) /\ ph' = "dead"
-                /\ UNCHANGED <<c, spos, cache, frozen, data, rpos, lcount, ocache, hist>>
+                /\ UNCHANGED <<c, spos, cache, frozen, data, rpos, lcount, ocache, hist, opened>>
 \* rewind (util.py:434-445, 490-492, 582-584): recording readers only
 Rewind == /\ c.rec /\ CanOp
           /\ IF frozen THEN UNCHANGED <<data, frozen, cache>>
                        ELSE data' = cache /\ frozen' = TRUE /\ cache' = <<>>
           /\ rpos' = 0 /\ lcount' = 0 /\ ph' = "init" /\ ocache' = <<>> /\ hist' = <<>>
-          /\ log' = Append(log, [op |-> "rewind", k |-> "ok", ids |-> <<>>]) /\ UNCHANGED <<c, spos>>
+          /\ log' = Append(log, [op |-> "rewind", k |-> "ok", ids |-> <<>>]) /\ UNCHANGED <<c, spos, opened>>
 RewindNoRec == /\ ~c.rec /\ CanOp /\ log' = Append(log, Err("rewind", "AttributeError"))
-               /\ UNCHANGED <<c, spos, cache, frozen, data, rpos, lcount, ph, ocache, hist>>
+               /\ UNCHANGED <<c, spos, cache, frozen, data, rpos, lcount, ph, ocache, hist, opened>>
 \* .data (util.py:395-399, 423-429, 470-474, 744-754)
 LimData == IF c.lim < 0 THEN data ELSE SubSeq(data, 1, Min2(Len(data), c.lim))
 Data == /\ CanOp
         /\ log' = Append(log, IF ~c.rec THEN Err("data", "AttributeError")
                               ELSE IF ~frozen THEN Err("data", "RuntimeError")
                               ELSE [op |-> "data", k |-> "blk", ids |-> LimData])
-        /\ UNCHANGED <<c, spos, cache, frozen, data, rpos, lcount, ph, ocache, hist>>
-Finished == ~CanOp /\ UNCHANGED vars
-Next == ReadFixed \/ ReadOvInit \/ ReadOvRun \/ ReadOvDead \/ ReadOvBroken \/ Rewind \/ RewindNoRec \/ Data \/ Finished
+        /\ UNCHANGED <<c, spos, cache, frozen, data, rpos, lcount, ph, ocache, hist, opened>>
+Finished == Len(log) >= MaxOps /\ UNCHANGED vars
+Next == ReadClosed \/ Open \/ ReadFixed \/ ReadOvInit \/ ReadOvRun \/ ReadOvDead \/ ReadOvBroken \/ Rewind \/ RewindNoRec \/ Data \/ Finished
 Spec == Init /\ [][Next]_vars
 
 \* ---- declarative side (C10): what the k-th read since the last rewind must return
@@ -105,7 +116,9 @@ Expected(k) ==
   ELSE IF k = 1 THEN Slice(0, Min2(c.b, Visible))
   ELSE IF (k - 2) * c.h + c.b < Visible THEN Slice((k - 1) * c.h, Min2((k - 1) * c.h + c.b, Visible))
   ELSE <<>>
-NoErrors == \A i \in 1..Len(log) : log[i].op = "read" => log[i].k \in {"blk", "none"}
+\* reads on an OPEN reader never fail (position of the open() in the log, 0 if the reader started open)
+OpenAt == IF \E i \in 1..Len(log) : log[i].op = "open" THEN CHOOSE i \in 1..Len(log) : log[i].op = "open" ELSE 0
+NoErrors == \A i \in 1..Len(log) : log[i].op = "read" => (IF opened /\ i > OpenAt THEN log[i].k \in {"blk", "none"} ELSE (log[i].k = "AudioIOError" \/ (c.lim = 0 /\ log[i].k = "none")))
 C10 == /\ NoErrors
        /\ \A k \in 1..Len(hist) : hist[k] = Expected(k)
        \* blocks have exactly b samples except the last one; after the first None every read gives None
@@ -126,7 +139,7 @@ ReadsBetween(i, j) == SelectSeq(SubSeq(log, i, j), LAMBDA e : e.op = "read")
 RewindIdx == {i \in 1..Len(log) : log[i].op = "rewind" /\ log[i].k = "ok"}
 C19Replay == \A i \in RewindIdx :
                LET prevs == {j \in RewindIdx : j < i}
-                   lo == IF prevs = {} THEN 1 ELSE (CHOOSE j \in prevs : \A m \in prevs : m <= j) + 1
+                   lo == IF prevs = {} THEN OpenAt + 1 ELSE (CHOOSE j \in prevs : \A m \in prevs : m <= j) + 1      \* reads before open() are not part of any pass
                    nexts == {j \in RewindIdx : j > i}
                    hi == IF nexts = {} THEN Len(log) ELSE (CHOOSE j \in nexts : \A m \in nexts : j <= m) - 1
                    before == ReadsBetween(lo, i - 1)
